@@ -4,6 +4,7 @@ their order."""
 from __future__ import annotations
 
 import ast
+import re
 
 from ..engine.cfg import CFG, forward, own_fragments, walk_fragment
 from ..engine.match import dotted, norm, func_body_stmts
@@ -729,6 +730,20 @@ def _merge(run, P):
                and not (isinstance(s_.value, ast.Name))
                and not (isinstance(s_.value, ast.Call) and isinstance(s_.value.func, ast.Attribute)
                         and s_.value.func.attr in ("popleft", "pop"))]
+    if others_:
+        # another node built from two neighbours (two loops over one range fused, say):
+        # legal exactly when the bodies do not depend on each other, which a predicate of
+        # the repository has to establish - what that predicate admits is not decided here
+        from .util import path_conditions
+        for o_ in others_:
+            conds = [t_ for t_, _pol in path_conditions(f.node, o_)]
+            helper = [t_ for t_ in conds if re.search(r"\b(self\.)?[a-z_]+\(", t_)
+                      and not t_.startswith("isinstance(") and "isinstance(" not in t_.split(" and ")[0][:0]]
+            helper = [t_ for t_ in conds for c_ in ast.walk(ast.parse(t_, mode="eval"))
+                      if isinstance(c_, ast.Call) and dotted(c_.func) not in ("isinstance", "len", "type")]
+            if helper:
+                raise AnalysisError(f"ASTSimplifyMapper.map_Block: {norm(o_)[:50]} under "
+                                    f"{helper[0][:50]}; not decided")
     run.ob("C06.merge", f, others_[0] if others_ else assign, not others_,
            construct="the only node built from two neighbours is the merged conditional"
                      + (f" (also: {norm(others_[0], 70)})" if others_ else ""),
